@@ -133,9 +133,6 @@ let of_err = function
   | TypeError -> L [A "err"; A "TypeError"]
 
 let of_panic = function
-  | PSPopUnwrap -> L [A "panic"; A "unwrap_none"]
-  | PSLimitUnwrap | PSOffsetUnwrap -> L [A "panic"; A "parse_int"]
-  | PSStripRange -> L [A "panic"; A "slice_range"]
   | PSStripBoundary -> L [A "panic"; A "char_boundary"]
   | PSFloatUnwrap -> L [A "panic"; A "parse_float"]
 
@@ -207,10 +204,10 @@ let run (entry : string) (inp : Sx.t) : Sx.t =
   | "slice" ->
       (match inp with
        | L [limit; offset; len] ->
-           (match output_slice (to_n limit) (to_n offset) (to_n len) with
-            | Slice (o, c) -> L [A "slice"; of_n o; of_n c]
-            | SlicePanic -> A "panic")
+           let (o, c) = output_slice (to_n limit) (to_n offset) (to_n len) in
+           L [A "slice"; of_n o; of_n c]
        | _ -> bad "slice input" inp)
+  | "wf" -> of_bool (FrontendSpec.parser_output (to_parsed inp))
   | _ -> raise (Conv ("unknown entry: " ^ entry))
 
 let () = Loop.main run
